@@ -97,6 +97,7 @@ def mday_line(case):
     (cls, stationary, per_day, per_site, upfront, budget, crews, cw, reqs) = case[:9]
     rq = C.reqs_token(reqs)
     e = C.ENV
+    crews = C.configured_crews(mday_case_to_day(case)[0])   # from the configuration, never from the object
     return "mday %d %s %d %d %d %d %d %d [%d,%d,%d,%d,%d,%d] %s" % (
         per_day, opt(per_site), upfront, C.SCALE_CODE[cls], int(stationary), budget, crews, int(cw),
         e["temp"][0], e["temp"][1], e["wind"][0], e["wind"][1], e["precip"][0], e["precip"][1], rq)
